@@ -18,3 +18,7 @@ Definition gen_varpc_n_R (n : list R) : R :=
   let v_var := (((((((IZR (4)) * (v_N - (IZR (2)))) / (v_N * (v_N - (IZR (1))))) * ((IZR (1)) + v_beta)) * v_p3_hat) - (v_beta * (v_p2_hat ^ 2))) + ((((IZR (2)) / (v_N * (v_N - (IZR (1))))) * ((IZR (1)) + v_beta)) * v_p2_hat)) in
   v_var.
 
+(* stdpc_n(n) = varpc_n(n) ** 0.5; stdpc(array) = stdpc_n(np.unique(array, return_counts=True)[1]) *)
+Definition gen_stdpc_n_R (n : list R) : R := sqrt (gen_varpc_n_R n).
+Definition gen_stdpc_R {X : Type} (unique_counts : list X -> list R) (a : list X) : R := gen_stdpc_n_R (unique_counts a).
+
